@@ -77,7 +77,7 @@ Qed.
 
 (* a well-formed operation: the dict literal of `c == {...}` has distinct keys *)
 Definition wf_op (o : op) : Prop :=
-  match o with EqDict l => NoDup (map fst l) | _ => True end.
+  match o with EqDict l | NeDict l => NoDup (map fst l) | _ => True end.
 
 Lemma same_items_same_map (s l : list (K * V)) :
   NoDup (map fst l) -> same_items s l = Sp2.same_map l s.
@@ -119,6 +119,7 @@ Proof.
   - (* EqDict *) simpl. f_equal. f_equal. apply same_items_same_map. exact WF.
   - (* Len *) reflexivity.
   - (* Contains *) unfold Sp2.r_has, d_mem, r_lookup. reflexivity.
+  - (* NeDict *) simpl. f_equal. f_equal. f_equal. apply same_items_same_map. exact WF.
 Qed.
 
 Lemma op_eq_popitem (o : op) : o = PopItem \/ o <> PopItem.
